@@ -14,7 +14,10 @@ RULE = ("NaiveForecaster: all strategies x sp 1..4 x window_length None/1..n(+1)
         "small integers or dyadic rationals with 0-40% NaN, start offset random, RangeIndex or "
         "integer Index; horizons = sorted subsets of {-3..6} plus steps beyond one/two seasons "
         "(out-of-sample only 50%, in-sample only 20%, mixed 30%); window lengths that are not "
-        "multiples of sp oversampled. PolynomialTrendForecaster: degree 0..3, both intercept "
+        "multiples of sp oversampled; a block of complete in-sample horizons -(n-1)..0 (every moving "
+        "window cut by the start of the series); the configurations fit rejects (window shorter "
+        "than a season, single-point drift window, window longer than the series, invalid sp / "
+        "window_length) and their accepted neighbours. PolynomialTrendForecaster: degree 0..3, both intercept "
         "options, n up to 12 with #coefficients <= n (unique least-squares solution), in- and "
         "out-of-sample steps, NaN rejection. statsmodels adapters (ExponentialSmoothing, AutoETS "
         "fixed model, ThetaForecaster): contiguous and gapped, in- and out-of-sample horizons "
@@ -26,7 +29,8 @@ TRUSTED = [
     "sktime class passes) used as the reference for the adapters",
     "modelled numpy/pandas facts: row-major reshape, nanmean over axis 0 ignoring NaN (NaN for an "
     "all-NaN column), np.tile, integer-array indexing, pandas .loc[start:cutoff] label slice on a "
-    "contiguous integer index, CutoffSplitter(fh=1) windows cut at the start of the series",
+    "contiguous integer index, CutoffSplitter(fh=1) windows cut at the start of the series, "
+    "check_sp / check_window_length reject values < 1 with ValueError",
     "sklearn PolynomialFeatures + LinearRegression(fit_intercept=False) = ordinary least squares "
     "(unique solution when #coefficients <= n); float results compared in Q with relative "
     "tolerance 1e-9 after exact float -> rational conversion",
@@ -69,7 +73,7 @@ def _fh(rng, n, sp, mode):
         pool = ins
     else:
         pool = ins + oos + far
-    pool = sorted(set(pool))
+    pool = sorted(set(h for h in pool if h >= -(n - 1)))   # never before the start of the series
     if not pool:
         pool = [1]
     k = rng.choice([1, 2, 3, 4, 6])
@@ -150,6 +154,53 @@ def gen_cases(rng, tier):
         wl = rng.randint(max(sp, 2), 4)
         cases.append(_naive_case(rng, strategy=strategy, n=n, sp=sp, wl=wl,
                                  mode=rng.choice(["ins", "mix"]), nan_rate=rng.choice([0, 0, 0.15])))
+    # every in-sample step from the first observation on: all moving windows cut by the start of
+    # the series (formerly F-C11-1..3), incl. the first step (empty window) and missing values
+    for _ in range(50 if quick else 800):
+        strategy = rng.choice(["last", "mean", "mean", "drift"])
+        sp = rng.choice([1, 2, 3, 4]) if strategy != "drift" else 1
+        n = rng.randint(max(sp, 2), 9)
+        wl = rng.choice([None, None, rng.randint(max(sp, 2), n)])
+        c = _naive_case(rng, strategy=strategy, n=n, sp=sp, wl=wl, mode="ins",
+                        nan_rate=rng.choice([0, 0, 0.2]))
+        c["fh"] = list(range(-(n - 1), 1)) + rng.choice([[], [1, sp + 1]])
+        cases.append(c)
+    # the documented rejections at fit and their accepted neighbours
+    for _ in range(24 if quick else 300):
+        kind = rng.choice(["drift1", "drift2", "mean<sp", "mean=sp", "wl<sp", "wl=1", "wl>n",
+                           "bad-sp", "bad-wl", "ignored"])
+        sp = rng.choice([2, 3, 4])
+        if kind == "drift1":
+            c = _naive_case(rng, strategy="drift", n=1, sp=1, wl=None, mode="oos")
+        elif kind == "drift2":
+            c = _naive_case(rng, strategy="drift", n=2, sp=1, wl=rng.choice([None, 2]))
+        elif kind == "mean<sp":
+            c = _naive_case(rng, strategy="mean", n=rng.randint(1, sp - 1), sp=sp, wl=None, mode="oos")
+        elif kind == "mean=sp":
+            c = _naive_case(rng, strategy="mean", n=sp, sp=sp, wl=rng.choice([None, sp]))
+        elif kind == "wl<sp":
+            c = _naive_case(rng, strategy="mean", n=rng.randint(sp, 8), sp=sp, wl=sp - 1, mode="oos")
+        elif kind == "wl=1":
+            c = _naive_case(rng, strategy="drift", n=rng.randint(1, 6), sp=1, wl=1, mode="oos")
+        elif kind == "wl>n":
+            n = rng.randint(1, 6)
+            c = _naive_case(rng, strategy=rng.choice(["mean", "drift", "last"]), n=n,
+                            sp=rng.choice([1, n + 1]), wl=n + 1, mode="oos")
+        elif kind == "bad-sp":
+            c = _naive_case(rng, strategy=rng.choice(["last", "mean"]), n=rng.randint(2, 6), sp=1,
+                            wl=rng.choice([None, 2]), mode="oos")
+            c["sp"] = rng.choice([0, -1])
+        elif kind == "bad-wl":
+            c = _naive_case(rng, strategy=rng.choice(["mean", "drift"]), n=rng.randint(2, 6), sp=1,
+                            wl=rng.choice([0, -2]), mode="oos")
+        else:   # parameters the strategy ignores may be anything
+            if rng.random() < 0.5:
+                c = _naive_case(rng, strategy="last", n=rng.randint(3, 6), sp=rng.choice([1, 2]),
+                                wl=rng.choice([0, -3, 99]), mode="oos")
+            else:
+                c = _naive_case(rng, strategy="drift", n=rng.randint(3, 6), sp=1, wl=None, mode="oos")
+                c["sp"] = rng.choice([0, -2, 7])
+        cases.append(c)
     for _ in range(110 if quick else 1500):
         cases.append(_poly_case(rng))
     for i in range(42 if quick else 300):
@@ -325,20 +376,39 @@ def _nanmean(vs):
     return sum(vs) / len(vs) if vs else None
 
 
-def _resolve(case):
-    """Documented window-length resolution; 'reject' for the documented rejections."""
+def _reject_reason(case):
+    """Why fit is documented to reject this configuration (None = it must be accepted).  The
+    window is the given window_length or, by default, the whole training series; "last" never
+    reads window_length, "drift" never reads sp."""
     s, sp, wl, n = case["strategy"], case["sp"], case["wl"], len(case["y"])
     if s == "last":
-        w = 1 if sp == 1 else sp
-    elif s == "mean":
-        if wl is not None and sp != 1 and wl < sp:
-            return "reject"
-        w = n if wl is None else wl
+        if sp < 1:
+            return "sp < 1"
+        w = sp
     else:
-        if wl == 1:
-            return "reject"
+        if wl is not None and wl < 1:
+            return "window_length < 1"
         w = n if wl is None else wl
-    return "reject" if w > n else w
+        if s == "mean":
+            if sp < 1:
+                return "sp < 1"
+            if sp != 1 and w < sp:
+                return "seasonal mean over a window of %d < sp = %d (less than one season)" % (w, sp)
+        elif w == 1:
+            return "drift through a window of a single point"
+    if w > n:
+        return "window of %d longer than the training series (%d)" % (w, n)
+    return None
+
+
+def _resolve(case):
+    """Documented window-length resolution; 'reject' for the documented rejections."""
+    if _reject_reason(case) is not None:
+        return "reject"
+    s, sp, wl, n = case["strategy"], case["sp"], case["wl"], len(case["y"])
+    if s == "last":
+        return sp
+    return n if wl is None else wl
 
 
 UNDEF = "undefined"
@@ -418,10 +488,14 @@ def oracle(case, out):
     if k == "naive":
         wl_ = _resolve(case)
         if wl_ == "reject":
-            if "err" in out and out["stage"] == "fit":
+            if out.get("err") == "ValueError" and out["stage"] == "fit":
                 return None
-            return "accepted-invalid-configuration: wl=%s sp=%s n=%d" % (
-                case["wl"], case["sp"], len(case["y"]))
+            if "err" in out:
+                return "raised-for-defined-forecast: %s at %s: %s" % (
+                    out["err"], out.get("stage"), out.get("msg"))
+            return "accepted-invalid-configuration: %s (wl=%s sp=%s n=%d): no textbook forecast, got %s" % (
+                _reject_reason(case), case["wl"], case["sp"], len(case["y"]),
+                [float(_fr(v)) if isinstance(v, (list, tuple)) else v for v in out["vals"]])
         if "err" in out and out["stage"] == "fit":
             return "rejected-valid-configuration: %s" % out.get("msg")
         exp = textbook_naive(case, wl_)
